@@ -13,6 +13,8 @@ import (
 	"os/exec"
 	"path/filepath"
 	"runtime"
+	"strconv"
+	"strings"
 	"sync"
 	"time"
 
@@ -102,12 +104,31 @@ func (p *c13Proc) kill() {
 	p.cmd.Wait()
 }
 
+// procCPU: user+system CPU seconds consumed so far by a process (from /proc/<pid>/stat)
+func procCPU(pid int) float64 {
+	b, err := os.ReadFile(fmt.Sprintf("/proc/%d/stat", pid))
+	if err != nil {
+		return 0
+	}
+	s := string(b)
+	if i := strings.LastIndex(s, ")"); i >= 0 {
+		f := strings.Fields(s[i+1:])
+		if len(f) > 13 {
+			u, _ := strconv.ParseFloat(f[11], 64)
+			k, _ := strconv.ParseFloat(f[12], 64)
+			return (u + k) / 100
+		}
+	}
+	return 0
+}
+
 func c13RunWorkers(c *Cfg, cases []*c13Case) {
 	workers := 16
 	if n := runtime.NumCPU(); n < workers {
 		workers = n
 	}
-	limit := time.Duration(c.Pick(6, 10)) * time.Second
+	cpuLimit := float64(c.Pick(6, 8)) // CPU seconds per case
+	wallCap := 240 * time.Second
 	var wg sync.WaitGroup
 	next := make(chan int, 64)
 	for w := 0; w < workers; w++ {
@@ -123,45 +144,72 @@ func c13RunWorkers(c *Cfg, cases []*c13Case) {
 			}()
 			for i := range next {
 				cs := cases[i]
-				if p == nil {
-					var err error
-					if p, err = c13StartProc(dir); err != nil {
-						cs.importErr = "worker-start"
-						p = nil
-						continue
+				for attempt := 0; attempt < 2; attempt++ {
+					if p == nil {
+						var err error
+						if p, err = c13StartProc(dir); err != nil {
+							cs.importErr = "worker-start"
+							p = nil
+							break
+						}
 					}
-				}
-				b, _ := json.Marshal(c13Req{ID: i, Schema: cs.schemaTxt, Insts: cs.instTxt, Skel: cs.skel != nil, Gen: true})
-				b = append(b, '\n')
-				type res struct {
-					line []byte
-					err  error
-				}
-				ch := make(chan res, 1)
-				pp := p
-				go func() {
-					if _, err := pp.in.Write(b); err != nil {
-						ch <- res{nil, err}
-						return
+					t0 := time.Now()
+					b, _ := json.Marshal(c13Req{ID: i, Schema: cs.schemaTxt, Insts: cs.instTxt, Skel: cs.skel != nil, Gen: !cs.noGen})
+					b = append(b, '\n')
+					type res struct {
+						line []byte
+						err  error
 					}
-					line, err := pp.out.ReadBytes('\n')
-					ch <- res{line, err}
-				}()
-				select {
-				case rs := <-ch:
-					var rp c13Resp
-					if rs.err != nil || json.Unmarshal(rs.line, &rp) != nil || rp.ID != i {
-						// the worker died (out of memory, fatal error): treat like a timeout
-						cs.importErr = "worker-died"
-						p.kill()
-						p = nil
-						continue
+					ch := make(chan res, 1)
+					pp := p
+					go func() {
+						if _, err := pp.in.Write(b); err != nil {
+							ch <- res{nil, err}
+							return
+						}
+						line, err := pp.out.ReadBytes('\n')
+						ch <- res{line, err}
+					}()
+					done := false
+					// the limit is on the worker's CPU time (the machine may be heavily loaded, so
+					// wall-clock time says little), with a generous wall-clock cap
+					cpu0 := procCPU(pp.cmd.Process.Pid)
+					tick := time.NewTicker(400 * time.Millisecond)
+					waiting := true
+					for waiting {
+						select {
+						case rs := <-ch:
+							waiting = false
+							var rp c13Resp
+							if rs.err != nil || json.Unmarshal(rs.line, &rp) != nil || rp.ID != i {
+								// the worker died (out of memory, fatal error): treat like a timeout
+								cs.importErr = "worker-died"
+								p.kill()
+								p = nil
+								break
+							}
+							cs.importErr, cs.verdicts, cs.genTxt, cs.genSkip, cs.shape, cs.flags, cs.evalMillis = rp.ImportErr, rp.Verdicts, rp.GenTxt, rp.GenSkip, rp.Shape, rp.Flags, rp.Millis
+							done = true
+						case <-tick.C:
+							used := procCPU(pp.cmd.Process.Pid) - cpu0
+							if used > cpuLimit || time.Since(t0) > wallCap {
+								waiting = false
+								if os.Getenv("C13_DEBUG") != "" {
+									fmt.Fprintf(os.Stderr, "TIMEOUT attempt %d cpu %.1fs wall %v worker %d case %d len %d: %.120s\n", attempt, used, time.Since(t0), w, i, len(cs.schemaTxt), cs.schemaTxt)
+								}
+								cs.importErr = "timeout"
+								p.kill()
+								p = nil
+							}
+						}
 					}
-					cs.importErr, cs.verdicts, cs.genTxt, cs.genSkip, cs.shape, cs.flags, cs.evalMillis = rp.ImportErr, rp.Verdicts, rp.GenTxt, rp.GenSkip, rp.Shape, rp.Flags, rp.Millis
-				case <-time.After(limit):
-					cs.importErr = "timeout"
-					p.kill()
-					p = nil
+					tick.Stop()
+					if cs.importErr == "timeout" {
+						break // a real blow-up: no second attempt
+					}
+					if done {
+						break
+					}
 				}
 			}
 		}(w)
